@@ -40,3 +40,37 @@ Print Assumptions C10_refuted_on_pinned_code.
 
 (* progress of the block pipeline inside one download is C01's piece-downloader model (kind 102);
    completion with correct files when the last piece is written is C01_session_integrity + C02. *)
+
+(* ---- the picker never leaves an idle holder without a piece (Picker.v / PickerWs.v, kinds 901 / 903) ---- *)
+From RainV Require Import Picker PickerProofs PickerWs PickerWsProofs.
+(* whenever the loop asks the picker for a peer that is idle and unchoking us and holds a piece that
+   is neither done, being written nor requested, the picker has a piece for it (any end-game limit
+   of at least 1, both modes, any state): "no piece" is not an answer it may give *)
+Theorem C10_idle_holder_always_gets_a_piece : forall s pe i, 1 <= maxdup s ->
+  let P := get_peer (peers s) pe in let p := get_piece s i in
+  pe_downloading P = false -> pe_choking P = false ->
+  in_range s i = true -> p_done p = false -> p_writing p = false -> In pe (p_having p) -> p_req p = [] ->
+  pick_possible s (fst (find_piece s pe)) = true /\ pick_check s pe None = None.
+Proof. intros s pe i H P p H1 H2 H3 H4 H5 H6 H7. split; [eapply idle_holder_gets_a_pick|eapply no_pick_is_illegal]; eauto. Qed.
+Print Assumptions C10_idle_holder_always_gets_a_piece.
+
+(* the same while a web seed is downloading, for a piece that is not reserved for a web seed *)
+Theorem C10_idle_holder_gets_a_piece_in_webseed_mode : forall s pe i, downloading_ws s = true ->
+  let P := get_peer (peers (base s)) pe in let p := get_piece (base s) i in
+  pe_downloading P = false -> pe_choking P = false ->
+  in_range (base s) i = true -> avail_ws s i = true -> In pe (p_having p) -> p_req p = [] ->
+  wpick_check s pe None = None.
+Proof. exact ws_idle_holder_gets_a_pick. Qed.
+Print Assumptions C10_idle_holder_gets_a_piece_in_webseed_mode.
+
+(* with an end-game limit of 0 the first statement is false (configuration note in DESIGN) *)
+Theorem C10_endgame_limit_zero_starves : exists s pe, pe_downloading (get_peer (peers s) pe) = false /\
+  pe_choking (get_peer (peers s) pe) = false /\ In pe (p_having (get_piece s 0)) /\ p_req (get_piece s 0) = [] /\
+  p_done (get_piece s 0) = false /\ pick_possible s (fst (find_piece s pe)) = false.
+Proof.
+  exists {| pieces := [{| p_done := false; p_writing := false; p_having := [7]; p_req := []; p_snub := []; p_chok := []; p_head := false; p_tail := false |}];
+            peers := [(7, {| pe_choking := false; pe_downloading := false; pe_af := []; pe_piece := None |})];
+            avail := 1; endgame := true; sequential := false; maxdup := 0 |}, 7.
+  vm_compute. repeat split; auto.
+Qed.
+Print Assumptions C10_endgame_limit_zero_starves.
